@@ -20,3 +20,14 @@ CLAIMS["C08"] = (
     "Trusted: mc/ref/pen.py closed-form one-sided derivatives (self-tested). generalized_support is not judged (it is not "
     "part of the statement). No claim outside the alphabets.",
     "DESIGN.md §4 C08")
+CLAIMS["C06"] = (
+    "exploration",
+    "bounded exhaustive enumeration of (datafit, hyper, X, y, w) against reference losses and derivatives, dense vs CSC",
+    "Every accessor of every datafit class (value, raw_grad, raw_hessian where exact, gradient_scalar(_sparse), gradient(_sparse), "
+    "full_grad_sparse, gradient_g(_sparse), gradient_j(_sparse), intercept_update_step, initialize(_sparse) attributes) is "
+    "compared with the documented loss and its hand-derived derivatives on all of T(2,2), T(3,2) orbit representatives (all "
+    "729 in thorough), full-rank / zero-column / rescaled designs, all survival patterns of <=3 samples (n=4 in thorough), "
+    "and a grid of coefficient vectors.",
+    "Trusted: mc/ref/loss.py (documented formulas; derivatives self-tested numerically). Points with |Xw| > 30 (float64 "
+    "overflow regime) are outside the alphabet. Cox/SqrtQuadratic raw_hessian are bounds and belong to C09.",
+    "DESIGN.md §4 C06")
